@@ -202,9 +202,31 @@ class Ctx:
         return 0
 
 
+def _anchored_definedness(ctx):
+    """every property: in the python files it is anchored in, no function reads a local variable at a point no earlier statement can have
+    bound (the call would raise UnboundLocalError for every input reaching it - a necessary condition for any behavioural clause)"""
+    props = {}
+    for line in (VERIF / "properties.jsonl").read_text().splitlines():
+        if line.strip():
+            d = json.loads(line)
+            props[d["id"]] = d
+    files = [f for f in props.get(ctx.prop_id, {}).get("anchors", {}).get("files", []) if f.endswith(".py") and f.startswith("src/")]
+    mods = tuple(sorted({f[4:-3].replace("/", ".").removesuffix(".__init__") + "." for f in files} |
+                        {f[4:-3].replace("/", ".").removesuffix(".__init__") for f in files}))
+    if not mods:
+        return
+    from .sites import no_use_before_assignment
+    from .srcmodel import load
+    ctx.rule("DEF: no function of the anchored files reads a local before any statement that can have assigned it (UnboundLocalError)")
+    model = load(ctx.root)
+    exact = {m for m in mods if not m.endswith(".")}
+    no_use_before_assignment(ctx, model, ctx.prop_id, "DEF", tuple(exact), exact_modules=True)
+
+
 def run_property(prop_id, fn, tier, root, seed=0):
     ctx = Ctx(prop_id, tier=tier, root=root, seed=seed)
     try:
+        _anchored_definedness(ctx)
         fn(ctx)
         if tier == "thorough" and not os.environ.get("PGVERIF_NO_SELFTEST") and not ctx.has_new_findings():
             from . import selftest
